@@ -69,7 +69,16 @@ int main(int argc, char **argv)
 		int pre = 1 + (int)((g_seed * 31u + (unsigned)r * 17u) % PRE);
 		for (int i = 0; i < pre; i++) { items[i].seq = i + 1; items[i].post = 0; dispatch_async_f(L, &items[i], l_item); }
 		dispatch_set_target_queue(L, S);
-		for (int i = pre; i < pre + POST; i++) { items[i].seq = i + 1; items[i].post = 1; dispatch_async_f(L, &items[i], l_item); }
+		for (int i = pre; i < pre + POST; i++) {
+			items[i].seq = i + 1; items[i].post = 1;
+			/* synchronous submissions queue behind the retarget barrier as well: they run on this thread holding L and,
+			 * recursively, its NEW target (the sync path re-reads do_targetq after locking L) */
+			unsigned f = (unsigned)(i * 2654435761u + g_seed + (unsigned)r) % 16;
+			if (f == 3) dispatch_sync_f(L, &items[i], l_item);
+			else if (f == 7) dispatch_barrier_sync_f(L, &items[i], l_item);
+			else if (f == 11) dispatch_async_and_wait_f(L, &items[i], l_item);
+			else dispatch_async_f(L, &items[i], l_item);
+		}
 		int waited = 0;
 		while (atomic_load(&ran) < pre + POST && waited < 30000) { usleep(1000); waited++; }
 		atomic_store(&s_stop, 1);
